@@ -76,6 +76,7 @@ CHUNK = 1
 SHRINK_RUNS = 25
 SHRINK_S = 420.0
 BOOT_TIMEOUT = 420.0
+REF_FORMAT = 3     # bump when the canonical record of a reference run changes
 DET_SAMPLE = {"quick": 6, "thorough": 40}   # a scenario is several interpreters
 SECOND_POOL_WORKERS = 6
 
@@ -458,7 +459,7 @@ def _spawn(args: list, hashseed: str, timeout: float) -> tuple[int, str]:
 
 
 def _reference(spec: dict, res: dict) -> dict | None:
-    key = core.digest(spec)[:32]
+    key = core.digest([REF_FORMAT, spec])[:32]
     path = os.path.join(_ref_dir(), key + ".json")
     if not os.path.exists(path):
         sp = dict(spec)
@@ -779,6 +780,7 @@ def _run_scenario(doc, dom, budget, root, base, res, seeds_fn) -> None:
     expected: dict = {}     # rel -> (setup, inst, seed)
     claimed: dict = {}      # rel -> job, claimed by the fake peer
     maybe: dict = {}        # files a crashed boot may or may not have created
+    torn: set = set()       # files whose write was cut by a crash
     crashes = 0
     restart_pending = False
     for bi, boot in enumerate(boots):
@@ -848,6 +850,12 @@ def _run_scenario(doc, dom, budget, root, base, res, seeds_fn) -> None:
         if rc == 137 and boot.get("crash"):
             maybe.update(here)
             crashes += 1
+            if boot["crash"]["at"] == "log_bytes":
+                # the log being written when the process died belongs to
+                # the last run that reported completion in this boot
+                runs_here = [r["file"] for r in recs if r["e"] == "run"]
+                if runs_here:
+                    torn.add(runs_here[-1])
             restart_pending = True
             core.bump(res["faults"], "crash:" + boot["crash"]["at"])
             res["events"].append(["boot", bi, "crashed",
@@ -883,6 +891,7 @@ def _run_scenario(doc, dom, budget, root, base, res, seeds_fn) -> None:
         if rel not in expected and os.path.exists(os.path.join(base, rel)):
             expected[rel] = job
     logs: dict = {}
+    torn_readable: dict = {}
     incomplete = []
     for rel, (s, i, seed) in sorted(expected.items()):
         p = os.path.join(base, rel)
@@ -895,7 +904,13 @@ def _run_scenario(doc, dom, budget, root, base, res, seeds_fn) -> None:
             text = f.read()
         try:
             rec = jobs.record_from_log_text(text)
-            logs[rel] = (rec, text)
+            if rel in torn:
+                # cut exactly at a section boundary: looks complete to a
+                # reader but later sections may be missing
+                incomplete.append(rel)
+                torn_readable[rel] = rec
+            else:
+                logs[rel] = (rec, text)
         except ValueError:
             incomplete.append(rel)
     # a run in flight at a crash (and only that) may be lost; files the
@@ -1008,12 +1023,23 @@ def _run_scenario(doc, dom, budget, root, base, res, seeds_fn) -> None:
         complete_now = rel in logs and rel not in bad_at_eval
         returned = "objectives" in r or "packing" in r
         if not complete_now:
-            # a torn/empty file: raising is fine, returning must be right
+            # a torn/empty file: raising is fine; a returned result must
+            # still be the true one (history-free reference of that job)
             if returned:
-                core.violation(res, "torn-log-yields-a-result",
-                               f"{rel} is incomplete on disk but parsing "
-                               f"returned a result: {str(r)[:300]}")
-                return
+                s0, i0, seed0 = expected[rel]
+                ref0 = _reference({"mode": "run", "setup": s0, "inst": i0,
+                                   "seed": seed0, "budget": budget}, res)
+                if ref0 is None:
+                    return
+                if ("packing" in r and _norm(r["packing"]) != _norm(
+                        ref0["record"]["y"])) or (
+                        "best_f" in r
+                        and r["best_f"] != ref0["record"]["best_f"]):
+                    core.violation(
+                        res, "torn-log-yields-wrong-result",
+                        f"{rel} was incomplete on disk and parsing returned "
+                        f"a result that is not the run's: {str(r)[:300]}")
+                    return
             continue
         # the file may have been incomplete when this evaluate ran (e.g.
         # completed by the peer later): raising is acceptable then
